@@ -264,7 +264,22 @@ Copy ==
   /\ act' = [name |-> "Copy"] /\ obs' = [kind |-> "none"]
   /\ UNCHANGED <<vals, pars, status, ref, covSnap, total, pmStale, pending>>
 
+(* to_file followed by from_file through the object's own class: the working object is replaced by the reloaded one  *)
+(* (C09: a reloaded object must be indistinguishable in every LATER step).  Mechanism = that of a new object.        *)
+Reload ==
+  /\ Bounded("Reload")
+  /\ ref' = [n \in Names |-> Live]
+  /\ covSnap' = [n \in Names |-> NoSnap]
+  /\ total' = NoTotal
+  /\ pmStale' = FALSE
+  /\ vals' = IF Kind = "hist" THEN [vals EXCEPT !["y"] = <<0, 0>>]
+            ELSE IF IsModel THEN Recalc(vals) ELSE vals
+  /\ pending' = IF Kind = "hist" THEN pars ELSE pending
+  /\ act' = [name |-> "Reload"] /\ obs' = [kind |-> "none"]
+  /\ UNCHANGED <<pars, status>>
+
 Next ==
+  \/ Reload
   \/ \E n \in Names : AddSource(n)
   \/ \E n \in Names, b \in BadKinds : AddBad(n, b)
   \/ \E n \in Names, on \in BOOLEAN : SetEnabled(n, on)
